@@ -8,7 +8,8 @@ import core  # noqa: E402
 from coqlit import cZ, clist  # noqa: E402
 
 ID = "C06"
-THEOREMS = ["c06_int_axis", "c06_slice_axis", "c06_neg_step_refused", "c06_view_is_numpy_on_window"]
+THEOREMS = ["c06_int_axis", "c06_slice_axis", "c06_neg_step_refused", "c06_view_is_numpy_on_window", "c06_axis_inside_window",
+            "c06_never_outside_window"]
 HEADER = ("From Coq Require Import ZArith List.\nFrom NixV Require Import Base.Prelude Pure.Slices Pure.SlicesCheck.\n"
           "Import ListNotations.\nOpen Scope Z_scope.\n")
 
